@@ -347,6 +347,7 @@ pub fn run(tier: Tier) -> i32 {
     run.replay_regressions(&|part, j| match part {
         "system" => check_system(&units, &case_from(j)?, &mut Stats::default()),
         "failures" => check_failures(&case_from(j)?, &mut Stats::default()),
+        "layered" => crate::c09_layers::check(&case_from(j)?, &mut Stats::default()),
         _ => {
             let (a, b, ka, kb, v): (usize, usize, usize, usize, f64) = case_from(j)?;
             check_pair(&units, a, b, ka, kb, v, &mut Stats::default())
@@ -468,6 +469,9 @@ pub fn run(tier: Tier) -> i32 {
         );
     }
     if !run.failed() {
+        crate::c09_layers::run_part(&mut run, tier);
+    }
+    if !run.failed() {
         crate::c09_recipe::run_recipe_part(&mut run, tier, &units_view(&units));
     }
     run.finish()
@@ -486,6 +490,7 @@ pub fn replay(part: &str, j: &serde_json::Value) -> Verdict {
         "system" => check_system(&units, &case_from(j)?, &mut st),
         "failures" => check_failures(&case_from(j)?, &mut st),
         "recipes" => crate::c09_recipe::replay(j, &units_view(&units)),
+        "layered" => crate::c09_layers::check(&case_from(j)?, &mut st),
         "definitions" => Err(Violation::new("c09.definition", "re-run ./check C09 quick: the definitions part is a fixed table comparison")),
         "triples" => {
             let i: u64 = case_from(j)?;
